@@ -18,6 +18,53 @@ def macro_names(n):
     return out
 
 
+# re-seatings that cannot lose a member: (function, walked set, inserted operand) -> reason (confirmed by reading)
+RESEAT_OK = {
+    ('uscxml::LargeMicroStep::step', '_entrySet', 'histChild'): 'deliberate skip inside the deep-history arm: everything between the deep history pseudo-state and the nested history child was just restored from the remembered configuration down to atomic states, so the skipped members need no completion; other members cannot lie in between in a document the validator accepts (a second target inside the same parent would make the configuration illegal)',
+}
+
+
+def closure_loops(rep, fb):
+    """no loop of step() re-seats the iterator it walks an ordered set with from the result of an insertion into that set"""
+    f = fb.fn('uscxml::LargeMicroStep::step')
+    n_loops = n_ins = 0
+    for lp in f.walk():
+        if lp['k'] not in ('ForStmt', 'WhileStmt'):
+            continue
+        init = lp['c'][0] if lp['k'] == 'ForStmt' else None
+        it_lids = set()
+        walked = None
+        if init is not None and init['k'] == 'DeclStmt':
+            for d in init.get('decls', []):
+                if d.get('init') is not None and any(x.get('callee', {}).get('q', '').split('::')[-1] in ('begin', 'end', 'rbegin') for x in sub(d['init'])):
+                    it_lids.add(d['lid'])
+                    ms = [x['ref']['name'] for x in sub(d['init']) if x['k'] == 'MemberExpr' and x['ref'].get('dk') == 'Field']
+                    walked = ms[0] if ms else None
+        if not it_lids or walked is None:
+            continue
+        n_loops += 1
+        body = lp['c'][-1]
+        for n in sub(body):
+            if n['k'] in ('BinaryOperator', 'CXXOperatorCallExpr') and n.get('op') == '=':
+                l = strip(n['c'][0] if n['k'] == 'BinaryOperator' else n['c'][1])
+                if l is None or l['k'] != 'DeclRefExpr' or l.get('ref', {}).get('lid') not in it_lids:
+                    continue
+                rhs = n['c'][1] if n['k'] == 'BinaryOperator' else n['c'][2]
+                ins = [x for x in sub(rhs) if x['k'] == 'CXXMemberCallExpr' and x.get('callee', {}).get('q', '').endswith('::insert') and x['c'][0].get('c') and any(
+                    y['k'] == 'MemberExpr' and y['ref'].get('dk') == 'Field' and y['ref'].get('name') == walked for y in sub(x['c'][0]['c'][0]))]
+                if ins:
+                    n_ins += 1
+                    operand = ' '.join(fb.text(ins[0]['c'][1]).split()) if len(ins[0].get('c', [])) > 1 else ''
+                    if (f.q, walked, operand) in RESEAT_OK:
+                        rep.ok('R02.12', 'LargeMicroStep|%s|re-seated at %s' % (walked, operand), 'exempt: ' + RESEAT_OK[(f.q, walked, operand)])
+                        continue
+                    rep.fail('R02.12', 'LargeMicroStep|%s|iterator re-seated from insert' % walked, locstr(n),
+                             'the loop walks %s and assigns its iterator from `%s`: the walk continues at the insertion point and the members between it and the old position are skipped (e.g. a second target whose own ancestors are then never added)' % (walked, ' '.join(fb.text(rhs).split())[:60]))
+    rep.minimum('R02.12', n_loops, 3, 'iterator loops over ordered sets in LargeMicroStep::step')
+    if not n_ins:
+        rep.ok('R02.12', 'LargeMicroStep', '%d iterator loops over ordered sets; none re-seats its iterator from an insertion into the walked set' % n_loops)
+
+
 def first_only(rep, fb):
     SETS = ('completion', 'target', 'ancestors')
     n_uses = 0
@@ -108,6 +155,7 @@ def run(rep, tier):
     rep.rule('R02.9', 'ordered views keep every member: the comparator of each ordered set of states / transitions orders by at least one key that is unique per element (a key that several elements share, e.g. "no transitions = largest value", makes the set treat them as one member: inserts are dropped, erase removes the wrong state)')
     rep.rule('R02.10', 'exit sets follow the transition domain: the engines\' getTransitionDomain has the specified quantifier shape (same rule as C01 R01.11)')
     rep.rule('R02.11', 'set-valued relations are used as sets: inside step() the completion / target / ancestor sets of a state or transition are only used whole (range-for, begin()..end() pair, whole-container copy), never through their first element alone')
+    rep.rule('R02.12', 'closure loops visit every member: no loop of step() that walks an ordered set with an iterator assigns that iterator from the result of an insertion into the same set (the walk would continue at the insertion point and skip the members in between); closures are computed while walking a copy or by forward walks with plain increments')
     rep.assume('legality for every chart and history needs the values of the entry set: not decided')
     fb = facts.FactBase(facts.library_tus())
     ex = exc.ExcFlow(fb, infeasible=set(INFEASIBLE))
@@ -117,6 +165,7 @@ def run(rep, tier):
     for cls, tag in (('uscxml::LargeMicroStep', 'LargeMicroStep'), ('uscxml::FastMicroStep', 'FastMicroStep')):
         _domain.check(rep, 'R02.10', fb, [fb.fn(cls + '::getTransitionDomain')], tag)
     first_only(rep, fb)
+    closure_loops(rep, fb)
     for eq in ENGINES:
         sk = _skel.Skeleton(fb, ex, eq)
         f, g, eng, cls = sk.f, sk.g, sk.eng, sk.cls
